@@ -115,3 +115,28 @@ Example C13_example :
   wf Z x /\ size (zvspace x) = 5%nat /\ length (zbasis (zvspace x)) = 5%nat
   /\ zinner x x = 40%Z /\ zflat x = [1; 2; 3; -1; 5]%Z.
 Proof. vm_compute. repeat split; reflexivity. Qed.
+
+(* the leaf operations of the model are the ones read off core.VSpace and numpy_vspaces on this run (coq/gen/GenVSpace.v) *)
+From AG Require Import VSpaceTie.
+From AGGen Require Import GenVSpace.
+Theorem C13_leaf_spaces_follow_source :
+  forall (K : Type) (k0 k1 : K) (kadd kmul ksub : K -> K -> K) (kopp : K -> K),
+    ring_theory k0 k1 kadd kmul ksub kopp eq ->
+    (forall dt sh, size (VR dt sh) = gen_real_size (VSpace.prod sh) /\ size (VC dt sh) = gen_complex_size (VSpace.prod sh))
+    /\ (forall dt sh a b dt' sh' (c e : list (K * K)),
+          inner K k0 kadd kmul (RLeaf dt sh a) (RLeaf dt' sh' b) = ksum K k0 kadd (map2 (gen_real_inner_term K kmul) a b)
+          /\ inner K k0 kadd kmul (CLeaf dt sh c) (CLeaf dt' sh' e)
+             = ksum K k0 kadd (map2 (gen_complex_inner_term K kadd kmul ksub kopp) c e))
+    /\ (forall dt sh (d : list K) (c : list (K * K)),
+          covector K kopp (RLeaf dt sh d) = RLeaf dt sh (map (gen_covector K) d)
+          /\ covector K kopp (CLeaf dt sh c) = CLeaf dt sh (map (gen_complex_covector K kopp) c))
+    /\ (forall dt, standard_basis K k0 k1 (VR dt nil) = map (fun u => RLeaf dt nil (cons u nil)) (gen_real_units K k1)
+                   /\ standard_basis K k0 k1 (VC dt nil) = map (fun u => CLeaf dt nil (cons u nil)) (gen_complex_units K k0 k1)).
+Proof.
+  intros K k0 k1 kadd kmul ksub kopp HR.
+  split; [exact sizes_follow_source|].
+  split; [exact (inner_follows_source K k0 k1 kadd kmul ksub kopp HR)|].
+  split; [exact (covector_follows_source K kopp)|].
+  exact (basis_units_follow_source K k0 k1).
+Qed.
+Print Assumptions C13_leaf_spaces_follow_source.
